@@ -8,4 +8,8 @@ func init() {
 		"Two parts. C29wu: seeded search over interleavings of the atomic steps of OnCallBegin/OnCallEnd/timer callback/ExitIdleMode/Close of the real idle.Manager (every atomic and lock is a scheduling point), idle timeouts of nanoseconds so expiry races with calls; oracle at every enforcer callback and call boundary. C29we: the real channel with tiny idle timeouts, RPC bursts and Connect calls; every RPC must end with its handler's status. Sampling, not proof.",
 		"Trusted: detrt runtime patch, synctest clock, simnet, the oracles.",
 		"seeded schedule search over the real idle.Manager with a recording enforcer + end-to-end status oracle under tiny idle timeouts"))
+	regProp("C53", (&Prop{Parts: []string{"C53wu", "C53we"}}).doc(
+		"Two parts. C53wu: generated operation sequences over the mem API (NewBuffer, Copy, Ref, Free, Slice, SplitUnsafe, ReadUnsafe, Materialize, MaterializeToBuffer, Reader, real pools) on 1-3 goroutines against a reference model, with a tracking pool that records and poisons every Put: memory returned exactly once, never while referenced, exactly when the last reference is freed; live references read the original bytes; zeroing pools hand out zeros. C53we: the same tracking pool installed in a real client and server under cancel, reset, cut, half-close, blackhole, Stop/GracefulStop: no double Put, no use after Put (poison shows up in the wire byte ledger and the receive-payload oracle).",
+		"Buffers never returned are only counted in C53we (grpc-go drops unread receive buffers for the GC).",
+		"reference-model check of the mem API + tracking, poisoning pool in end-to-end runs"))
 }
